@@ -74,6 +74,7 @@ def _case(draw, tier):
         "rollup": draw(st.sampled_from([True, True, True, False])),
         "decoys": decoys,
         "prefixes": prefixes,
+        "collide": draw(st.sampled_from([False, False, True])),
         "fmt": draw(st.sampled_from(["tsv", "tsv", "parquet"])),
         "key": draw(st.integers(1, 4)),
         "conf_chunk": draw(st.sampled_from([None, 1, 2, 3, 7, 16, 50])),
@@ -127,7 +128,7 @@ def check(case):
     with scratch_dir() as tmp:
         psms, inputs, scores = [], [], []
         for ci, coll in enumerate(case["colls"]):
-            df, meta = datagen.psm_frame(case["seed"] + 101 * ci, coll["mults"], key_arity=case["key"], n_noise=1,
+            df, meta = datagen.psm_frame(case["seed"] + 101 * ci, coll["mults"], key_arity=case["key"], colliding_keys=bool(case.get("collide")), n_noise=1,
                                          file_index=ci, with_rid=False, n_peptides=case["n_pep"],
                                          label_enc=case["label_enc"], extra_levels=case["extra"])
             path = tmp / f"in{ci}{ext}"
@@ -146,7 +147,9 @@ def check(case):
             inputs.append(rows)
         dest = tmp / "out"
         dest.mkdir()
-        prefixes = [f"c{ci}" for ci in range(len(psms))] if case["prefixes"] else [None] * len(psms)
+        # "no prefix" is spelled None by library callers and "" by the command line (single file / --aggregate)
+        noprefix = "" if case["seed"] % 2 else None
+        prefixes = [f"c{ci}" for ci in range(len(psms))] if case["prefixes"] else [noprefix] * len(psms)
         with config_inject.chunk_sizes(confidence=case["conf_chunk"], merge=case["merge_chunk"]):
             guarded(
                 mokapot.assign_confidence,
@@ -219,9 +222,11 @@ def check(case):
     if len(case["colls"]) >= 2:
         classes.append("multi-collection")
     if not case["prefixes"]:
-        classes.append("no-prefixes")
+        classes.append("no-prefixes" + ("-empty-string" if case["seed"] % 2 else "-none"))
     if case["extra"]:
         classes.append("extra-levels")
+    if case.get("collide") and case["key"] in (2, 3):
+        classes.append("spectrum-keys-equal-when-concatenated")
     if case["ties"]:
         classes.append("ties")
     classes.append(case["fmt"])
